@@ -20,7 +20,7 @@ RULE = ("random DAGs (<= 7 providers, depth <= 4, fan-out <= 3, shared sub-depen
         "fingerprint = canonical DAG + overrides + failure + converter; trivial = graphs without any edge")
 ASSUMPTIONS = ["in-memory broker; virtual time; sync providers run through an inline executor (the asyncify wrapper is kept)"]
 EVAL_COUNTER = "invocations_judged"
-REQUIRED = ["invocations_judged", "graphs_with_shared_subdeps", "overrides_applied", "provider_failures", "declaration_rejections", "msg_leaves", "concurrent_twins"]
+REQUIRED = ["invocations_judged", "graphs_with_shared_subdeps", "overrides_applied", "provider_failures", "declaration_rejections", "msg_leaves", "concurrent_twins", "fresh_executions"]
 CASE_TIMEOUT = 120
 
 
@@ -29,6 +29,8 @@ def gen_cases(tier, seed):
     n = {"quick": 64, "thorough": 800}[tier]
     cases = [{"type": "graphs", "seed": rnd.randrange(10**6), "conv": rnd.choice(["basic", "pydantic"]), "n": 6} for _ in range(n)]
     cases.append({"type": "declarations", "seed": 0})
+    for i in range({"quick": 8, "thorough": 48}[tier]):
+        cases.append({"type": "fresh", "seed": rnd.randrange(10**6), "keep": i % 2 == 0, "via_retry": (i // 2) % 2 == 0, "fails": 1 + i % 3, "recurring": i % 4 == 3})
     return cases
 
 
@@ -228,6 +230,51 @@ def declarations(out, stats, fps):
     _d(out, stats, fps, V)
 
 
+async def fresh_scenario(loop, case, out, stats, fps):
+    """The same message id is executed several times (retries after failures, explicit m.retry(), iterations of a recurring
+    job): every execution's message dependency - in the actor and in its provider - must describe the CURRENT delivery."""
+    from datetime import timedelta
+
+    from rv.actors import register_fresh_actor
+    from rv.wl import World, run_worker
+
+    w = World(loop, "mem", converter="basic", seed=case["seed"])
+    try:
+        await w.open()
+        r = w.router(retry_policy=lambda retry_number=1: timedelta(seconds=0.2))
+        seen = []
+        kept = register_fresh_actor(r, "fresh", seen, case["keep"], case["fails"], case["via_retry"])
+        await w.conn.message_broker.queue_declare("default")
+        kw = {"deferred_by": timedelta(seconds=1.0)} if case["recurring"] else {}
+        from repid import Job
+
+        job = Job("fresh", id_="f1", retries=5, timeout=timedelta(seconds=30), store_result=False, _connection=w.conn, **kw)
+        await job.enqueue()
+        want = case["fails"] + 1 + (2 if case["recurring"] else 0)
+        worker = w.worker([r], tasks_limit=3, graceful_shutdown_time=3.0, handle_signals=[__import__("signal").SIGUSR1])
+        info = await run_worker(w, worker, until=lambda: len(seen) >= want, horizon=20.0, poll=0.1)
+        if info["exc"] is not None or not info["returned"]:
+            out.append(V("worker_died", "fresh", f"{info}"))
+        deliveries = [e for e in w.log.events if e.get("k") == "ret" and e.get("op") == "consume" and e.get("id") == "f1"]
+        fps.add(f"fresh/{case['keep']}/{case['via_retry']}/{case['fails']}/{case['recurring']}")
+        stats["fresh_runs"] += 1
+        if len(seen) < case["fails"] + 1:
+            out.append(V("missing_invocation", "fresh", f"only {len(seen)} executions of f1 in 20 s, expected at least {case['fails'] + 1}; deliveries {len(deliveries)}"))
+        for i, rec in enumerate(seen):
+            stats["invocations_judged"] += 1
+            stats["fresh_executions"] += 1
+            truth = (deliveries[i].get("params") or {}).get("tried") if i < len(deliveries) else None
+            for who in ("actor", "provider"):
+                got = rec[who]["tried"]
+                if truth is not None and got != truth:
+                    out.append(V("value_mismatch", f"message-dependency/stale-{who}", f"execution {i + 1} of f1 (delivered with already_tried={truth}): the {who}'s message dependency says already_tried={got}; keep={case['keep']} via_retry={case['via_retry']}"))
+                if rec[who]["read_only"]:
+                    out.append(V("value_mismatch", f"message-dependency/used-{who}", f"execution {i + 1} of f1 received a message dependency that is already read-only"))
+        del kept
+    finally:
+        await w.close()
+
+
 def run_case(case):
     from rv.sim import loop as vl
 
@@ -235,6 +282,10 @@ def run_case(case):
     out, fps, samples = [], set(), []
     if case["type"] == "declarations":
         declarations(out, stats, fps)
+    elif case["type"] == "fresh":
+        res = vl.run(lambda loop: fresh_scenario(loop, case, out, stats, fps), max_steps=4_000_000, seed=case["seed"])
+        if res.exc is not None:
+            out.append(V("harness_or_api_error", "fresh", f"{type(res.exc).__name__}: {res.exc}"))
     else:
         res = vl.run(lambda loop: graphs_scenario(loop, case, out, stats, fps, samples), max_steps=4_000_000, seed=case["seed"])
         if res.exc is not None:
